@@ -297,6 +297,10 @@ func genC02(rec *lib.Rec, r *lib.Rng, thorough bool) {
 			rec.Op("S", "read conc "+strconv.Itoa(r.Pick(32, 48, 40, 64))+" "+strconv.Itoa(r.Pick(8, 16, 32))+" "+strconv.Itoa(r.Pick(1, 2, 50))+" "+cyc, true)
 			rec.Count("concurrent-exhaustion")
 		}
+		for rep := 0; rep < map[bool]int{false: 6, true: 60}[thorough]; rep++ {
+			rec.Op("S", "read concx "+strconv.Itoa(r.Pick(2, 4, 8, 16))+" "+strconv.Itoa(3000+rep)+" "+cyc, true)
+			rec.Count("concurrent-exhaustion-rounds")
+		}
 	}
 	n := 3000
 	if thorough {
